@@ -249,6 +249,10 @@ def run_sessions(ctx, v, rng, ds, qs, impl_single, cases):
             pos = rng.randrange(len(reqs) + 1)
             bad = rng.choice(["GET hosts\nFilter: name\n\n", "GET nosuchtable\n\n", "FOO bar\n\n", "GET hosts\nLimit: x\n\n", "GET hosts\nFilter: state ~~ *\n\n", "GET hosts\nColumns: name\nSort: nosuch asc\n\n"])
             reqs.insert(pos, {"text": bad, "base": bad, "keepalive": False, "bad": True})
+        # a spare empty line behind a keep-alive request is tolerated (lmd reads it as "nothing yet"): the requests
+        # that follow in the same write still have to be answered
+        for r in reqs:
+            r["wire"] = r["text"] + ("\n" * rng.choice([1, 1, 2]) if r["keepalive"] and not r["bad"] and rng.random() < 0.35 else "")
         sess.append(reqs)
     # single-request answers for the keep-alive variants (the KeepAlive header does not change the bytes)
     lines = [{"op": "dataset", "id": 1, "dataset": ds}]
@@ -260,7 +264,7 @@ def run_sessions(ctx, v, rng, ds, qs, impl_single, cases):
             lines.append({"op": "query", "id": idx, "text": r["text"], "optimize": True})
             meta.append((idx, si, ri))
         idx += 1
-        lines.append({"op": "session", "id": idx, "text": "".join(r["text"] for r in reqs), "optimize": True})
+        lines.append({"op": "session", "id": idx, "text": "".join(r["wire"] for r in reqs), "optimize": True})
         meta.append((idx, si, None))
     scratch = os.path.join(common.BUILD, "scratch-%d" % os.getpid())
     res = common.run_impl(ctx["binary"], lines, scratch)
@@ -274,7 +278,7 @@ def run_sessions(ctx, v, rng, ds, qs, impl_single, cases):
             continue
         reqs = sess[si]
         got = (res.get(i) or {})
-        case = {"text": "".join(r["text"] for r in reqs), "optimize": True, "dataset": ds, "extra": {"session": [r["text"] for r in reqs]}}
+        case = {"text": "".join(r["wire"] for r in reqs), "optimize": True, "dataset": ds, "extra": {"session": [r["wire"] for r in reqs]}}
         v.stats["evaluated"] += 1
         if got.get("crash") or got.get("timeout"):
             v.violations.append(("crash" if got.get("crash") else "property", case, "session crashed or did not end: " + str(got)[:300]))
